@@ -141,6 +141,12 @@ func init() {
 	execs["C17var"] = func(r *RNG, c *Case) { execs[c.Prop](r, c) }
 	// C13: aggregate = counted per-sequence output
 	gens["C13"] = func(r *RNG, id string) *Case {
+		if r.Chance(1, 100) { // snps --aggregate on a genome of more than 100 000 columns: the table is ordered by position as a number
+			forceWideGenome = true
+			c := c03Gen(r, id, true)
+			forceWideGenome = false
+			return c
+		}
 		if r.Chance(1, 60) {
 			// an aggregate table of well over 64 KiB (thousands of distinct SNPs) going to a pipe with a slow reader: every
 			// line must arrive (a writer that is still flushing when the command returns loses the highest positions)
